@@ -37,7 +37,7 @@ def compositions(rng, n):
 
 def driver(chk, groups):
     rng = random.Random(chk.seed + 17)
-    sizes = [rng.choice([0, 1, 1, 2, 2, 2, 3, 3, 4, 5, 6]) for _ in range(groups)]
+    sizes = [rng.choice([0, 1, 1, 2, 2, 2, 3, 3, 4, 6]) for _ in range(groups)]
     signs = []
     for n in sizes:
         for _ in range(n):
@@ -115,7 +115,7 @@ def run(chk):
     for v in (["std"] if quick else ["std", "verify", "i64", "noasm"]):
         chk.replay(recs, v, "generated boundary records")
     # T: aggregates made by the library, decided by TLC
-    chk.validate(driver(chk, 50 if quick else 500), MODULE, "C17_trace.cfg", "driver", timeout=3000)
+    chk.validate(driver(chk, 24 if quick else 400), MODULE, "C17_trace.cfg", "driver", timeout=3000)
     return chk.finish(LEVEL,
         "History machine: TLC explores every composition of incremental aggregation steps (invariants: schedule-independent bytes, the aggregate verifies); "
         "each transition and each complete composition is executed on the real API. G: TLC enumerates Cases of C17_HalfAgg.tla (counts, all buffer lengths, "
